@@ -11,24 +11,32 @@ CFG = dict(
                    "panics/errs when reachable commits have their parents), C12_safe / C12_prefix_safe (after prune and at EVERY crash "
                    "prefix of the delete list each reachable commit keeps commit, table, index, profile, blocks, block indices; refs "
                    "resolve; every stored commit keeps its parents), C12_complete (what is deleted, incl. the early return), "
+                   "C12_gc_safe / C12_gc_complete (gc = drop the refs of expired transactions, then prune: every other ref and all it reaches is kept), "
                    "C12_idempotent, C12_rerun(_clean) (re-run after any crash reaches the uninterrupted result up to a torn "
                    "table/index/profile triple); pre-fix variants refuted (C12_unchecked_refuted, C12_key_order_refuted). Model tied "
-                   "to pkg/prune by differential execution incl. the exact order of store deletes and injected Delete failures.",
+                   "to pkg/prune by differential execution incl. the exact order of store deletes and injected Delete failures, on the map-backed "
+                   "store AND on the real badger store (prune.Prune, `wrgl prune`, `wrgl gc`), and gc as gc_cmd.go runs it under several process time zones.",
         level_note="Theorems are about coq/model/Prune.v (hand transliteration); tie = correspondence harness (prune.Prune on a "
                    "recording objects.Store, `wrgl prune`, `wrgl gc`) + independent DFS oracle. Completeness/idempotence/re-run assume "
                    "Acyclic (no parent cycle: content addressing). Behaviours outside the property text are theorems, not findings: "
-                   "early return leaves orphan tables/blocks when no commit is removable (C12_early_return_leaves_orphans); a crash inside "
+                   "store engine and process time zone are runtime, not logic: the badger batch and the time-zone batch are judged by the oracle and "
+                   "compared with the zone-/engine-independent model (the model has no clock: transaction ages are case data). early return leaves orphan tables/blocks when no commit is removable (C12_early_return_leaves_orphans); a crash inside "
                    "a table/index/profile triple leaks the index/profile (C12_torn_triple_leak).",
         rule="fixed witnesses (fixed defects 98a13da shallow+orphan with the absent table id before/between/after, b7554dd orphan chains "
              "crashed at every delete, early return with orphan table, torn triple, missing parent, dangling ref, shared tables, merges, "
              "all four ref kinds; every ref-name shape - flat and multi-component heads/a/b, tags/rel/1/t, remotes/origin/feature/x, remotes/my/remote/x, txs/<uuid>/feature/x, txs/<uuid>/a/b/c, transactions with and without a row in the ref store - as the ONLY ref keeping a commit alive, also through `wrgl prune`/`wrgl gc`); exhaustive: all DAGs of 2 (quick; sample of 3) / 3 (thorough) commits x table in {t1,t2,shallow} x ref "
              "subsets, ops prune,prune, plus every crash prefix for a sample; random: 3..25 commits, 1..8 tables sharing blocks, leftovers, "
              "shallow commits, refs of all kinds, op sequences of prune / delete ref / set ref / crash-prune k; ~8% tables built by the real "
-             "ingest; a few `wrgl prune` / `wrgl gc` runs on badger+sqlite repos. distinct = distinct case text; non-trivial = >= 3 "
+             "ingest; a few `wrgl prune` / `wrgl gc` runs on badger+sqlite repos; badger: repositories of 30..130 commits with one table (index, profile) each so that > 100 keys follow every "
+             "scanned prefix (beyond badger's iterator prefetch), pruned through prune.Prune on the real badger store with delete trace and crash prefixes, "
+             "`wrgl prune`, `wrgl gc` (quick 2, thorough 26); gczone: transaction.GarbageCollect + prune.Prune exactly as gc_cmd.go (and `wrgl gc` with "
+             "transactionTTL in the repo config) with time.Local = UTC-8 / UTC / UTC+9 (thorough also -3:30, +5:45, -12, +14), TTLs 1h, 24h, |offset|-1h, |offset|+1h, "
+             "open transactions aged 0 .. TTL+15h on both sides of the TTL, pending commits staged under nested txs/ names. distinct = distinct case text; non-trivial = >= 3 "
              "commits and at least one prune op that deletes something",
         trusted=["ids are abstract small numbers mapped to real 16-byte sums by the harness; the model sorts by id, the code by sum: "
                  "per-kind delete sets and the kind sequence are compared, for crash cases the generator picks object bytes whose sum order "
-                 "equals the id order; refs: every ref of the case is a root whatever its name (the oracle's roots are the harness's own ref map, cross-checked against ListAllRefs of the store before and after each prune)",
+                 "equals the id order; refs: every ref of the case is a root whatever its name (the oracle's roots are the harness's own ref map, cross-checked against ListAllRefs of the store before and after each prune); which objects are stored is decided by point lookups of every key "
+                 "of the case, the store's key listing (GetAll*Keys) is compared with that (class c12-key-listing-wrong)",
                  "objects are well-formed (GetCommit/GetTable of stored keys decode); one store.Delete is atomic"],
         assumptions=["Acyclic: the parent relation of stored commits has no cycle (hash-based ids)",
                      "stored commit/table objects decode (hostile bytes are C17's subject)",
